@@ -156,7 +156,8 @@ SendMsg(fr) == [k |-> "send", fr |-> fr]
 \* the requests an operation enqueues, in order
 OpMsgs(e, ch) ==
     CASE e.op = "publish" ->
-            <<SendMsg(Fr(ch, "basic.publish")),
+            <<SendMsg(Fr(ch, "basic.publish") @@ [exchange |-> e.args.x, routing_key |-> e.args.rk,
+                                                   mandatory |-> e.args.mandatory, immediate |-> e.args.immediate]),
               SendMsg([type |-> "header", ch |-> ch, body_size |-> e.args.len])>>
             \o [i \in 1..Len(ChunkSeq(e.args.len, Payload(st.frame_max))) |->
                    SendMsg([type |-> "body", ch |-> ch, size |-> ChunkSeq(e.args.len, Payload(st.frame_max))[i]])]
@@ -288,6 +289,9 @@ SameFrame(a, b) ==
     /\ (a.type = "header" /\ Has(a, "body_size") => a.body_size = b.body_size)
     /\ (a.type = "body" /\ Has(a, "size") => a.size = b.size)
     /\ (Has(a, "code") => a.code = b.code)
+    /\ (Has(a, "exchange") /\ Has(a, "routing_key") /\ Has(a, "mandatory") /\ Has(a, "immediate") =>
+           /\ a.exchange = b.exchange /\ a.routing_key = b.routing_key
+           /\ a.mandatory = b.mandatory /\ a.immediate = b.immediate)
 
 TC2s ==
     /\ IsEv("c2s")
